@@ -188,23 +188,108 @@ def _exploit_trial(t3: ast.AST) -> Tuple[str, str, str]:
     return ast.unparse(inner.test), ast.unparse(t.test.operand.args[0]), ast.unparse(last)
 
 
+def _dict_items(d: ast.Dict, where: str) -> List[Tuple[str, str]]:
+    if any(k is None for k in d.keys):
+        raise ValueError(f"{where}: nested ** in a dict literal")
+    return [(ast.literal_eval(k), ast.unparse(x).replace('"', "'")) for k, x in zip(d.keys, d.values)]
+
+
 def _action_params(tree: ast.AST, cls_name: str) -> List[Tuple[str, List[Tuple[str, str]]]]:
     """Every `self.chosen_action = "<name>", {…}` of the class, in source order: the action name and, per key, the
-    source expression of its value (`**x` is listed as key "**")."""
+    source expression of its value.  `**x` is expanded when `x` is a local assigned exactly once, from a dict literal, in the
+    same method (`config = {…}` in `_c2c`); any other `**` is an extractor failure."""
     out = []
     cls = class_def(tree, cls_name)
-    for n in sorted((n for n in ast.walk(cls) if isinstance(n, ast.Assign)), key=lambda n: n.lineno):
-        if len(n.targets) == 1 and ast.unparse(n.targets[0]) == "self.chosen_action":
-            v = n.value
-            if not (isinstance(v, ast.Tuple) and len(v.elts) == 2 and isinstance(v.elts[0], ast.Constant) and isinstance(v.elts[1], ast.Dict)):
-                raise ValueError(f"{cls_name}: chosen_action assigned from {ast.unparse(v)}")
-            if v.elts[0].value == "do-nothing":
-                if v.elts[1].keys:
-                    raise ValueError(f"{cls_name}: do-nothing with parameters")
-                continue
-            kv = [("**" if k is None else ast.literal_eval(k), ast.unparse(x).replace('"', "'")) for k, x in zip(v.elts[1].keys, v.elts[1].values)]
-            out.append((v.elts[0].value, kv))
+    for fn in (m for m in cls.body if isinstance(m, ast.FunctionDef)):
+        local_dicts = {}
+        for n in ast.walk(fn):
+            if isinstance(n, ast.Assign) and len(n.targets) == 1 and isinstance(n.targets[0], ast.Name):
+                local_dicts.setdefault(n.targets[0].id, []).append(n.value)
+        for n in sorted((n for n in ast.walk(fn) if isinstance(n, ast.Assign)), key=lambda n: n.lineno):
+            if len(n.targets) == 1 and ast.unparse(n.targets[0]) == "self.chosen_action":
+                v = n.value
+                if not (isinstance(v, ast.Tuple) and len(v.elts) == 2 and isinstance(v.elts[0], ast.Constant) and isinstance(v.elts[1], ast.Dict)):
+                    raise ValueError(f"{cls_name}: chosen_action assigned from {ast.unparse(v)}")
+                if v.elts[0].value == "do-nothing":
+                    if v.elts[1].keys:
+                        raise ValueError(f"{cls_name}: do-nothing with parameters")
+                    continue
+                kv = []
+                for k, x in zip(v.elts[1].keys, v.elts[1].values):
+                    if k is not None:
+                        kv.append((ast.literal_eval(k), ast.unparse(x).replace('"', "'")))
+                        continue
+                    src = local_dicts.get(x.id, []) if isinstance(x, ast.Name) else []
+                    if not (len(src) == 1 and isinstance(src[0], ast.Dict)):
+                        raise ValueError(f"{cls_name}.{fn.name}: `**{ast.unparse(x)}` is not a local dict literal assigned once")
+                    kv += _dict_items(src[0], f"{cls_name}.{fn.name}")
+                out.append((n.lineno, v.elts[0].value, kv))
+    return [(name, kv) for _, name, kv in sorted(out)]
+
+
+def _self_dict(tree: ast.AST, cls_name: str, fn_name: str, attr: str) -> List[Tuple[str, str]]:
+    """`self.<attr>[: T] = {…}` inside the method: key ↦ source expression (exactly one such assignment)."""
+    fn = find_method(class_def(tree, cls_name), fn_name)
+    hits = []
+    for n in ast.walk(fn):
+        tgt = n.target if isinstance(n, ast.AnnAssign) else (n.targets[0] if isinstance(n, ast.Assign) and len(n.targets) == 1 else None)
+        if tgt is not None and ast.unparse(tgt) == f"self.{attr}":
+            if not isinstance(n.value, ast.Dict):
+                raise ValueError(f"{cls_name}.{fn_name}: self.{attr} assigned from {ast.unparse(n.value)}")
+            hits.append(n.value)
+    if len(hits) != 1:
+        raise ValueError(f"{cls_name}.{fn_name}: expected one `self.{attr} = {{…}}`, found {len(hits)}")
+    return _dict_items(hits[0], f"{cls_name}.{fn_name}")
+
+
+def _attr_assignments(tree: ast.AST, cls_names: List[str], attr: str) -> List[Tuple[str, str]]:
+    """Every `self.<attr> = <expr>` in the methods of the classes, in source order: (method, expression)."""
+    out = []
+    for cn in cls_names:
+        for fn in (m for m in class_def(tree, cn).body if isinstance(m, ast.FunctionDef)):
+            for n in sorted((n for n in ast.walk(fn) if isinstance(n, ast.Assign)), key=lambda n: n.lineno):
+                if len(n.targets) == 1 and ast.unparse(n.targets[0]) == f"self.{attr}":
+                    out.append((n.lineno, fn.name, ast.unparse(n.value).replace('"', "'")))
+    return [(f, e) for _, f, e in sorted(out)]
+
+
+def _select(tree: ast.AST, cls_name: str, fn_name: str) -> List[str]:
+    """`_select_start_node` / `_select_target_ip`: `if <test>: <a> else: <b>` — the three source texts."""
+    fn = find_method(class_def(tree, cls_name), fn_name)
+    body = [st for st in fn.body if not (isinstance(st, ast.Expr) and isinstance(st.value, ast.Constant))]
+    if not (len(body) == 1 and isinstance(body[0], ast.If) and len(body[0].body) == 1 and len(body[0].orelse) == 1):
+        raise ValueError(f"{cls_name}.{fn_name}: expected a single two-armed `if`")
+    return [ast.unparse(body[0].test), ast.unparse(body[0].body[0]), ast.unparse(body[0].orelse[0])]
+
+
+def _concluded_writers() -> List[Tuple[str, str, str]]:
+    """Every assignment to an attribute `actions_concluded` under scripted_agents/ and interface.py (any object, any
+    method): (file, function, value).  Class-level defaults (`actions_concluded: bool = False`) are not assignments to an
+    attribute and are listed separately by the caller."""
+    from harness.lib.core import SRC
+    out = []
+    files = ["game/agent/interface.py"] + sorted(SA + f.name for f in (SRC / SA).glob("*.py") if f.name != "__init__.py")
+    for rel in files:
+        t = parse(rel)
+        for fn in (n for n in ast.walk(t) if isinstance(n, (ast.FunctionDef, ast.AsyncFunctionDef))):
+            for n in ast.walk(fn):
+                tgts = n.targets if isinstance(n, ast.Assign) else ([n.target] if isinstance(n, (ast.AnnAssign, ast.AugAssign)) else [])
+                for tg in tgts:
+                    for sub in ast.walk(tg):
+                        if isinstance(sub, ast.Attribute) and sub.attr == "actions_concluded":
+                            out.append((rel.split("/")[-1], fn.name, ast.unparse(n.value) if n.value is not None else "?"))
+                if isinstance(n, ast.Call) and ast.unparse(n.func) in ("setattr", "object.__setattr__") and any(
+                        isinstance(a, ast.Constant) and a.value == "actions_concluded" for a in n.args):
+                    out.append((rel.split("/")[-1], fn.name, "setattr"))
     return out
+
+
+def _lean_triples(xs) -> str:
+    return "[" + ", ".join(f'("{a}", "{b}", "{c}")' for a, b, c in xs) + "]"
+
+
+def _lean_spairs(xs) -> str:
+    return "[" + ", ".join(f'("{a}", "{b}")' for a, b in xs) + "]"
 
 
 def _lean_params(xs) -> str:
@@ -313,5 +398,19 @@ def tap3ExploitTrialSet : String := "{ex_set}"
 /-- every non-idle `self.chosen_action = name, {{…}}` in source order, with the source expression of each parameter -/
 def tap1ActionParams : List (String × List (String × String)) := {_lean_params(_action_params(t1, "TAP001"))}
 def tap3ActionParams : List (String × List (String × String)) := {_lean_params(_action_params(t3, "TAP003"))}
+/-- the dict literals of `TAP001.setup_agent` / `_network_knowledge_reset` the parameter expressions read from -/
+def tap1C2Settings : List (String × String) := {_lean_spairs(_self_dict(t1, "TAP001", "setup_agent", "c2_settings"))}
+def tap1PayloadSettings : List (String × String) := {_lean_spairs(_self_dict(t1, "TAP001", "setup_agent", "payload_settings"))}
+def tap1NetworkKnowledge : List (String × String) := {_lean_spairs(_self_dict(t1, "TAP001", "setup_agent", "network_knowledge"))}
+def tap1NetworkKnowledgeReset : List (String × String) := {_lean_spairs(_self_dict(t1, "TAP001", "_network_knowledge_reset", "network_knowledge"))}
+/-- every `self.chosen_application = …` / `self.current_host = …` (method, expression), in source order -/
+def tap1ChosenApplication : List (String × String) := {_lean_spairs(_attr_assignments(t1, ["TAP001"], "chosen_application"))}
+def tap1CurrentHost : List (String × String) := {_lean_spairs(_attr_assignments(t1, ["TAP001"], "current_host"))}
+def tap3CurrentHost : List (String × String) := {_lean_spairs(_attr_assignments(t3, ["TAP003"], "current_host"))}
+/-- `_select_start_node` (abstract_tap.py) / `_select_target_ip` (TAP001.py): test, then-branch, else-branch -/
+def selectStartNode : List String := {_lean_strs([x.replace('"', "'") for x in _select(t_abs, "AbstractTAP", "_select_start_node")])}
+def selectTargetIp : List String := {_lean_strs([x.replace('"', "'") for x in _select(t1, "TAP001", "_select_target_ip")])}
+/-- every assignment to an attribute `actions_concluded` in a method under game/agent: (file, function, value) -/
+def concludedWriters : List (String × String × String) := {_lean_triples(_concluded_writers())}
 end Primaite.Gen.Agents
 """
